@@ -183,18 +183,20 @@ func runC05(c *Ctx) {
 		}
 		// webhook anchor
 		anchored := false
-		if hf := p.Func(ct.webhookFn); hf != nil {
-			for _, b := range hf.Blocks {
-				for _, in := range b.Instrs {
-					if st, ok := in.(*ssa.Store); ok {
-						if fa, ok := st.Addr.(*ssa.FieldAddr); ok {
-							if n, _ := FieldOf(fa); n == ct.webhookAnchor {
-								anchored = true
+		if hf0 := p.Func(ct.webhookFn); hf0 != nil {
+			for _, hf := range samePkgClosure(p, hf0) {
+				for _, b := range hf.Blocks {
+					for _, in := range b.Instrs {
+						if st, ok := in.(*ssa.Store); ok {
+							if fa, ok := st.Addr.(*ssa.FieldAddr); ok {
+								if n, _ := FieldOf(fa); n == ct.webhookAnchor {
+									anchored = true
+								}
 							}
 						}
-					}
-					if ci, ok := in.(ssa.CallInstruction); ok && strings.Contains(ct.webhookAnchor, ".") && NameMatch(CalleeName(ci.Common()), ct.webhookAnchor) {
-						anchored = true
+						if ci, ok := in.(ssa.CallInstruction); ok && strings.Contains(ct.webhookAnchor, ".") && NameMatch(CalleeName(ci.Common()), ct.webhookAnchor) {
+							anchored = true
+						}
 					}
 				}
 			}
